@@ -6,11 +6,11 @@ import loadgen as G
 import loadrun as L
 
 PROPERTY = 'C18'
-LEAN_MODULES = ['YatimlModel.Props.C18', 'YatimlModel.Props.C18Cycle']
+LEAN_MODULES = ['YatimlModel.Props.C18', 'YatimlModel.Props.C18Cycle', 'YatimlModel.Spec.AliasShape']
 THEOREMS = ['YatimlModel.C18.' + t for t in [
     'expand_ofNode', 'C18_transparent', 'alias_to_open_is_cycle', 'C18_cycle_rejected',
     'cycle_only_if_selfRef', 'selfRef_never_expands', 'C18_cycle_only_for_selfRef',
-    'C18_selfRef_never_loads']]
+    'C18_selfRef_never_loads', 'expand_scoped', 'C18_cycle_iff_selfRef']]
 RULE = ('generated (class model, valid or invalid document) pairs; a sub-node is anchored and another '
         'node (a value, an item or a key, at a position of the same or of a different declared type) is '
         'replaced by an alias to it; the real load of the aliased text is compared with the real load of '
@@ -52,10 +52,71 @@ def not_nested(p, q):
     return not (len(q) >= len(p) and q[:len(p)] == p) and not (len(p) >= len(q) and p[:len(q)] == q)
 
 
+def graph_shape(yaml, root):
+    """independent of the model: does some node of the composer's graph contain itself (walk with the
+    stack of enclosing node objects), and is every shared node first met outside its own sub-graph or
+    inside it (always true of a graph; kept as the composer-output assumption of C18_cycle_iff_selfRef)"""
+    cyclic = [False]
+    done = set()
+
+    def walk(n, above):
+        if any(n is a for a in above):
+            cyclic[0] = True
+            return
+        if id(n) in done:
+            return
+        kids = []
+        if isinstance(n, yaml.SequenceNode):
+            kids = list(n.value)
+        elif isinstance(n, yaml.MappingNode):
+            kids = [x for kv in n.value for x in kv]
+        for x in kids:
+            walk(x, above + (n,))
+        done.add(id(n))
+    walk(root, ())
+    return cyclic[0]
+
+
+class ShapeBuffer(LC.CaseBuffer):
+    """also keeps, per case with a composed graph, the request `docshape` and the graph's own verdict"""
+    def __init__(self, ctx, yaml):
+        LC.CaseBuffer.__init__(self, ctx)
+        self.yaml, self.shapes = yaml, []
+
+    def append(self, c):
+        if getattr(c, 'node', None) is not None:
+            try:
+                import nodes as N
+                self.shapes.append(('docshape ' + N.doc_sexp(self.yaml, c.node), graph_shape(self.yaml, c.node),
+                                    c.text, c.real_out[0]))
+            except RecursionError:
+                pass
+        LC.CaseBuffer.append(self, c)
+
+
+def check_shapes(ctx, shapes):
+    """the model's syntactic predicates against the real composer's graph: selfRef = "some node contains
+    itself", every composed document is well-scoped, expansion gives a cycle error iff selfRef (the
+    statement of C18_cycle_iff_selfRef, here evaluated), and a cyclic graph never loads"""
+    if not shapes:
+        return
+    answers = ctx.driver([s[0] for s in shapes])
+    for (req, cyclic, text, real), a in zip(shapes, answers):
+        ctx.count('docshape_cases')
+        want = 'selfref={} scoped=1 expand={}'.format(int(cyclic), 'cycle' if cyclic else 'tree')
+        if cyclic:
+            ctx.count('docshape_cyclic')
+        if a != want:
+            ctx.disagree('docshape: model says {!r}, the composer graph says {!r}'.format(a, want),
+                             dict(text=text[:400], request=req[:600]))
+        if cyclic and real == 'ok':
+            ctx.violation('a document whose graph contains itself loads', dict(text=text[:400], key='cyclic-loads'))
+
+
 def explore(ctx):
     yaml, yatiml = L.setup()
     rng = ctx.rng
-    cases = LC.CaseBuffer(ctx)
+    cases = ShapeBuffer(ctx, yaml)
     for c in LC.gen_cases(ctx, ctx.budget(400, 9000), mutate_p=0.25, prop='C18'):
         if c.doc is None:
             # corpus texts already contain aliases: compare with the model only
@@ -246,6 +307,7 @@ def explore(ctx):
                     c2.real_out[0], repr(c2.real_out[1])[:120]),
                     dict(L.describe(c2), key='merge-cycle:' + c2.text[:60]))
     LC.correspond(ctx, cases)
+    check_shapes(ctx, cases.shapes)
 
 
 def search(ctx, broken):
